@@ -11,7 +11,7 @@ import sys
 
 VERIF = os.path.dirname(os.path.abspath(__file__))
 REPO = os.environ.get("VF_REPO", "/repo")
-BUILD = os.path.join(VERIF, "build")
+BUILD = os.path.join(VERIF, "build") if REPO == "/repo" else os.path.join(VERIF, "build", "alt_" + REPO.strip("/").replace("/", "_"))
 
 GOENV = {
     "GOFLAGS": "-mod=mod",
